@@ -1,6 +1,6 @@
 (* C09 — property theorems.  Statements only: each is closed by [exact] of a lemma proved elsewhere.
    [gen_tables], [wrapper] are the definitions regenerated from /repo by the translators on every run. *)
-From QT Require Import C09.Model C09.ModelThm C09.GenOk C09.Events C09.Stateful Gen.C09Gen.
+From QT Require Import C09.Model C09.ModelThm C09.GenOk C09.Events C09.Stateful C09.Conditions Gen.C09Gen.
 Open Scope string_scope.
 Open Scope Z_scope.
 
@@ -98,6 +98,21 @@ Proof.
   exact (fun fl => no_credential_change_below_admin gen_tables grant fl wrapper_sound wrapper_refuses gen_table_ok grant_ok).
 Qed.
 Print Assumptions C09_no_credential_change_below_admin.
+
+(* optional features: complete finite check that every routing entry is guarded by exactly the conditions the
+   specification gives to its route (history: the setting AND a samples-capable driver) and every handler method by its
+   method conditions; hence, for every assignment of the atomic facts, a route whose conditions do not all hold is an
+   unknown route: 404 for every method and caller *)
+Theorem C09_conditions_match_spec : cond_ok gen_tables = true.
+Proof. exact gen_cond_ok. Qed.
+Print Assumptions C09_conditions_match_spec.
+
+Theorem C09_route_without_feature_404 :
+  forall (at_ : string -> bool) r m l json,
+    forallb at_ (route_condition_spec r) = false ->
+    handle gen_tables (flags_from gen_derived at_) (route_template r) m l json = Status 404.
+Proof. exact (fun at_ => route_without_feature_404 gen_tables at_ gen_cond_ok). Qed.
+Print Assumptions C09_route_without_feature_404.
 
 (* non-vacuity, with every optional feature on: PATCH /ports/id/value reaches patch_port_value (normal): served for
    normal, 403 for view-only, 401 without authentication; POST /reset is refused to normal; an unknown shape is 404 *)
